@@ -14,8 +14,6 @@ import os
 
 os.environ.setdefault("OMP_NUM_THREADS", "1")      # before torch is imported: one thread per worker process
 os.environ.setdefault("MKL_NUM_THREADS", "1")
-import sys
-import time
 import warnings
 
 BATCH, D = 2, 2
